@@ -23,4 +23,40 @@ PROPS = {
                                      "not modelled: object.record / RegisterTrie (which words the REPL inserts)"],
         "assumptions": ["Go pointer sharing of the end marker is unobservable (Insert never descends into it; shown by the model's case split and exercised by the suite)"],
     },
+    "C08": {
+        "generated": True,
+        "proof_modules": [],
+        "theorems": [],
+        "suites": ["parse"],
+        "rule": "TBD",
+        "trusted_base": COMMON_TB,
+        "assumptions": [],
+    },
+    "C15": {
+        "generated": True,
+        "proof_modules": [],
+        "theorems": [],
+        "suites": ["parse15"],
+        "rule": "TBD",
+        "trusted_base": COMMON_TB,
+        "assumptions": [],
+    },
+    "C02": {
+        "generated": True,
+        "proof_modules": [],
+        "theorems": [],
+        "suites": ["format"],
+        "rule": "TBD",
+        "trusted_base": COMMON_TB,
+        "assumptions": [],
+    },
+    "C03": {
+        "generated": True,
+        "proof_modules": [],
+        "theorems": [],
+        "suites": ["format03"],
+        "rule": "TBD",
+        "trusted_base": COMMON_TB,
+        "assumptions": [],
+    },
 }
